@@ -234,7 +234,11 @@ def run_step(fn, arg, timeout=60):
     {"ok":True,"result":..} | {"ok":False,"error":..,"etype":..} | {"killed":code} | {"timeout":True}.
 
     The calling process must not have started native threads (checked)."""
-    faulthandler.cancel_dump_traceback_later()  # its watchdog is a native thread
+    faulthandler.cancel_dump_traceback_later()  # its watchdog is a native thread ...
+    for _ in range(400):  # ... which needs a moment to exit after the cancel
+        if native_thread_count() == 1:
+            break
+        time.sleep(0.005)
     if native_thread_count() != 1:
         raise RuntimeError(
             f"run_step: {native_thread_count()} native threads alive before fork"
